@@ -265,6 +265,9 @@ func GenSegDesc(r *gen.Rand, allowForeign bool) SegDesc {
 		d.Foreign = true
 		d.Tag = r.PickByte([]byte{0x00, 0x01, 0x03, 0x80, 0xff})
 		d.Body = r.Bytes(r.Intn(10))
+		if r.Chance(10) {
+			d.Body = r.Bytes(r.PickInt([]int{253, 254, 255, 255})) // the largest descriptor_length values
+		}
 		return d
 	}
 	d.Event = r.Uint32()
@@ -305,6 +308,14 @@ func GenSegDesc(r *gen.Rand, allowForeign bool) SegDesc {
 	if (d.Type == 0x34 || d.Type == 0x36) && r.Bool() {
 		d.HasSub = true
 		d.SubNum, d.SubExp = r.Byte(), r.Byte()
+	}
+	if r.Chance(25) && !d.Cancel && d.UPIDType != 0x0d && d.UPIDType != 0 {
+		// stretch the UPID so that descriptor_length lands on 253..255
+		d.UPID = nil
+		base := len(d.Enc()) - 2
+		if want := r.PickInt([]int{253, 254, 255, 255}); want-base > 0 && want-base <= 255 {
+			d.UPID = r.Bytes(want - base)
+		}
 	}
 	return d
 }
